@@ -996,6 +996,24 @@ int EGLPNUM_TYPENAME_ILLlib_addrows (
 
 	EGLPNUM_TYPENAME_EGlpNumInitVar (rng);
 
+	/* the norms of the new rows are computed from the caller's column indices
+	 * before ILLlib_addrow gets to validate them: reject a bad index before
+	 * anything is read or changed */
+	for (i = 0; i < num; i++)
+	{
+		for (j = 0; j < rmatcnt[i]; j++)
+		{
+			if (rmatind[rmatbeg[i] + j] < 0 ||
+					rmatind[rmatbeg[i] + j] >= lp->O->nstruct)
+			{
+				QSlog("EGLPNUM_TYPENAME_ILLlib_addrows called with bad column index: %d",
+										rmatind[rmatbeg[i] + j]);
+				rval = 1;
+				ILL_CLEANUP;
+			}
+		}
+	}
+
 	if (B == 0 || B->rownorms == 0)
 	{
 		if (factorok)
